@@ -119,6 +119,9 @@ type rcase struct {
 	Used     []uint             `json:"used,omitempty"`
 	Cms      map[string][]int64 `json:"cost_models,omitempty"`
 	NilEmpty bool               `json:"nil_for_empty,omitempty"`
+	RepV     uint               `json:"rep_version,omitempty"`
+	RepN     int                `json:"rep_len,omitempty"`
+	RepZ     int64              `json:"rep_value,omitempty"`
 	A        string             `json:"a,omitempty"`
 	B        string             `json:"b,omitempty"`
 	Era      uint               `json:"era,omitempty"`
@@ -187,6 +190,91 @@ func runLang(c *vh.Ctx, cf *vh.CaseFile, used []uint, cms map[uint][]int64, nilE
 		c.Res.Sample(map[string]any{"used": used, "lens": lens(cms), "out": hex.EncodeToString(got)})
 	}
 	cf.Add(fmt.Sprintf("CLang %s %s %s", coqUsed(used), coqCms(cms), vh.Opt(vh.Bytes(got), err == nil)), rc)
+}
+
+// runLangRep: the cost model of language v is n copies of the one-byte
+// integer z (n may be far beyond what a literal could carry); the other
+// languages take their (short) models from cms.
+func runLangRep(c *vh.Ctx, cf *vh.CaseFile, used []uint, cms map[uint][]int64, v uint, n int, z int64, class string) {
+	rc := rcase{Kind: "langrep", Used: used, Cms: cmsJSON(cms), RepV: v, RepN: n, RepZ: z}
+	full := map[uint][]int64{}
+	for k, m := range cms {
+		full[k] = m
+	}
+	big := make([]int64, n)
+	for i := range big {
+		big[i] = z
+	}
+	full[v] = big
+	um := map[uint]struct{}{}
+	for _, u := range used {
+		um[u] = struct{}{}
+	}
+	c.Begin(rc)
+	got, err := common.EncodeLangViews(um, full)
+	want := specLangViews(used, full)
+	c.Res.Count(fmt.Sprint("rep", used, cms, v, n, z), true, class)
+	c.Res.Distribution[fmt.Sprintf("cost-model-length/v%d/%d", v+1, n)]++
+	key := ""
+	switch {
+	case want == nil && err == nil:
+		key = "langviews-error-expected"
+	case want != nil && err != nil:
+		key = "langviews-spurious-error"
+	case want != nil && !bytes.Equal(got, want):
+		key = fmt.Sprintf("langviews-encoding:v%d-cost-model-length-%s", v+1, lenClass(n))
+	}
+	if key != "" {
+		d := 0
+		for d < len(got) && d < len(want) && got[d] == want[d] {
+			d++
+		}
+		hi := func(b []byte) []byte {
+			if d+12 < len(b) {
+				return b[:d+12]
+			}
+			return b
+		}
+		c.Res.Violate("monitor", key, fmt.Sprintf("EncodeLangViews(%v), PlutusV%d cost model of %d entries: output (%d bytes) differs from the specified encoding (%d bytes) at byte %d: got %x.., want %x..", used, v+1, n, len(got), len(want), d, hi(got), hi(want)), rc)
+	}
+	// observed output as pre ++ k x b ++ suf
+	zb := byte(z)
+	if z < 0 {
+		zb = 0x20 | byte(-1-z)
+	}
+	pre, k, suf := got, 0, []byte{}
+	if n > 0 {
+		run := 0
+		for i := 0; i < len(got); i++ {
+			if got[i] == zb {
+				run++
+				if run == n {
+					start := i + 1 - n
+					pre, k, suf = got[:start], n, got[i+1:]
+					break
+				}
+			} else {
+				run = 0
+			}
+		}
+	}
+	obs := "None"
+	if err == nil {
+		obs = fmt.Sprintf("(Some (%s, %s, %s, %s))", vh.Bytes(pre), vh.N(uint64(zb)), vh.N(uint64(k)), vh.Bytes(suf))
+	}
+	cf.Add(fmt.Sprintf("CLangRep %s %s %s %s %s %s", coqUsed(used), coqCms(cms), vh.N(uint64(v)), vh.N(uint64(n)), vh.Z(z), obs), rc)
+}
+
+func lenClass(n int) string {
+	switch {
+	case n < 24:
+		return "0..23"
+	case n < 256:
+		return "24..255"
+	case n < 65536:
+		return "256..65535"
+	}
+	return ">=65536"
 }
 
 func lens(cms map[uint][]int64) map[string]int {
@@ -877,7 +965,7 @@ func costModel(r *vh.Rng, c *vh.Ctx) []int64 {
 	case 2:
 		n = 23 + r.Intn(3) // header form boundary
 	case 3:
-		if r.Intn(c.Pick(6, 2)) == 0 {
+		if r.Intn(c.Pick(3, 2)) == 0 {
 			n = []int{166, 175, 251, 255, 256, 257, 297}[r.Intn(7)] // real table sizes and the 1-/2-byte count boundary
 		} else {
 			n = 2 + r.Intn(4)
@@ -929,7 +1017,7 @@ func shuffle(r *vh.Rng, xs []uint) []uint {
 }
 
 func run(c *vh.Ctx) error {
-	c.Res.Rule = "EncodeLangViews: every subset of PlutusV1..V4 (presented in shuffled order) x cost models of length 0,1,23..25,166..297 and small, values over the whole int64 range incl. header-width boundaries, plus missing-cost-model and unsupported-version errors, nil vs empty slices; ShortLex on byte-string pairs of equal/different lengths; rule: Alonzo/Babbage/Conway/Dijkstra transactions decoded from bytes, redeemers absent / list / map / empty, datums absent / array / tag-258 set / empty, non-canonical and indefinite encodings of both, PlutusV1..V3 witness scripts, reference scripts on reference and regular inputs (native, V1..V4, unresolvable), declared hash correct / absent / random / computed from one changed piece / computed under different cost models, one cost model missing. distinct by (tx bytes, cost models); non-trivial = redeemers or datums or a declared hash present (rule), at least one non-empty view or two languages (encoding)"
+	c.Res.Rule = "EncodeLangViews: every subset of PlutusV1..V4 (presented in shuffled order) x cost models; a length grid per language: 0, 1, 23, 24, 255, 256, 257, 1000 entries (every array / byte-string header width; explicit lists with boundary integers and uniform lists built inside Coq), thorough also 5000, 65532, 65535..65537, 70000; random lengths 0..12, 23..25, 166..297; values over the whole int64 range incl. header-width boundaries, plus missing-cost-model and unsupported-version errors, nil vs empty slices; ShortLex on byte-string pairs of equal/different lengths; rule: Alonzo/Babbage/Conway/Dijkstra transactions decoded from bytes, redeemers absent / list / map / empty, datums absent / array / tag-258 set / empty, non-canonical and indefinite encodings of both, PlutusV1..V3 witness scripts, reference scripts on reference and regular inputs (native, V1..V4, unresolvable), declared hash correct / absent / random / computed from one changed piece / computed under different cost models, one cost model missing. distinct by (tx bytes, cost models); non-trivial = redeemers or datums or a declared hash present (rule), at least one non-empty view or two languages (encoding)"
 	c.Res.Modelled = []string{
 		"Blake2b-256 is a Section variable in the theorems; in the correspondence it is the finite table of (preimage, digest) pairs the harness computed with golang.org/x/crypto/blake2b for the specified preimage and its plausible variants (any other preimage hashes to the empty string, which never equals a declared 32-byte hash)",
 		"the third-party encoder (shortest-form heads for int64, []byte, []int64) is modelled by head_min; validated byte for byte on every EncodeLangViews case",
@@ -952,6 +1040,8 @@ func run(c *vh.Ctx) error {
 		switch r.Kind {
 		case "lang":
 			runLang(c, cf, r.Used, cmsFromJSON(r.Cms, r.NilEmpty), r.NilEmpty, "replay")
+		case "langrep":
+			runLangRep(c, cf, r.Used, cmsFromJSON(r.Cms, false), r.RepV, r.RepN, r.RepZ, "replay")
 		case "lex":
 			runLex(c, cf, vh.UnHex(r.A), vh.UnHex(r.B))
 		default:
@@ -971,6 +1061,51 @@ func run(c *vh.Ctx) error {
 	runLang(c, cf, []uint{1}, map[uint][]int64{1: nil}, true, "lang/nil-slice")
 	runLang(c, cf, []uint{0}, map[uint][]int64{0: nil}, true, "lang/nil-slice")
 	runLang(c, cf, []uint{2, 0}, map[uint][]int64{0: nil, 2: nil}, true, "lang/nil-slice")
+	// cost-model lengths across every array / byte-string header width, for
+	// every language, alone and together with the other languages
+	boundaryInts := []int64{0, -1, 23, 24, -24, -25, 255, 256, -256, -257, 65535, 65536, -65536, -65537, 1<<32 - 1, 1 << 32, -(1 << 32) - 1, 1<<63 - 1, -1 << 63}
+	cfLen := c.NewCaseFile("c31len", header)
+	cfLen.SetShardSize(c.Pick(10, 12))
+	for v := uint(0); v < 4; v++ {
+		for _, n := range []int{0, 1, 23, 24, 255, 256, 257, 1000} {
+			// (a) explicit list with boundary integers (short literal: mostly small values above 257)
+			cm := make([]int64, n)
+			for i := range cm {
+				if n <= 257 && i%3 == 0 || i%97 == 0 {
+					cm[i] = boundaryInts[(i/3+int(v))%len(boundaryInts)]
+				} else {
+					cm[i] = int64(r.Intn(24))
+				}
+			}
+			used := []uint{v}
+			if r.Bool() {
+				used = shuffle(r, []uint{0, 1, 2, 3})
+			}
+			cms := costModels(r, c, []uint{0, 1, 2, 3})
+			for k := range cms {
+				if len(cms[k]) > 12 {
+					cms[k] = cms[k][:12]
+				}
+			}
+			cms[v] = cm
+			c.Res.Distribution[fmt.Sprintf("cost-model-length/v%d/%d", v+1, n)]++
+			runLang(c, cfLen, used, cms, false, "lang/length-grid")
+			// (b) n copies of a one-byte integer
+			delete(cms, v)
+			runLangRep(c, cfLen, used, cms, v, n, []int64{0, 23, -1, -24}[r.Intn(4)], "lang/length-grid-uniform")
+		}
+	}
+	cfLen.Flush()
+	if c.Thorough() {
+		for _, p := range []struct {
+			v uint
+			n int
+		}{{0, 65536}, {1, 65535}, {1, 65536}, {0, 70000}, {2, 65537}, {3, 65536}, {0, 5000}, {0, 65535 - 3}} {
+			cfBig := c.NewCaseFile(fmt.Sprintf("c31big%d_%d", p.v, p.n), header)
+			runLangRep(c, cfBig, shuffle(r, []uint{0, 1, 2, 3}), map[uint][]int64{0: {1}, 1: {-1}, 2: {}, 3: {24}}, p.v, p.n, int64(r.Intn(24)), "lang/length-huge")
+			cfBig.Flush()
+		}
+	}
 	for round := 0; round < c.Pick(6, 60); round++ {
 		for mask := 0; mask < 16; mask++ {
 			used := shuffle(r, subset(mask))
@@ -1036,6 +1171,29 @@ func run(c *vh.Ctx) error {
 					bt := build(r, s)
 					runRule(c, cf, e, bt.raw, bt.utxos, s.cms, false, fmt.Sprintf("rule-grid/%s/hashmode-%d", e.name, hm))
 				}
+			}
+		}
+	}
+	// long PlutusV1/V2 cost models at rule level (header widths of the list and of the wrapping byte string)
+	for i := range eras {
+		e := &eras[i]
+		for _, ln := range []int{255, 256, 257, 300} {
+			for _, hm := range []int{0, 3} {
+				s := &txSpec{era: e, dropCM: -1, hashMode: hm, redForm: 1, nRed: 1, v1: true, v2: ln%2 == 0, inKinds: []int{-1}}
+				if e.id >= conway.TxTypeConway {
+					s.redForm = 2
+				}
+				s.cms = costModels(r, c, []uint{0, 1, 2, 3})
+				for _, v := range []uint{0, 1} {
+					cm := make([]int64, ln)
+					for k := range cm {
+						cm[k] = int64(r.Intn(30))
+					}
+					s.cms[v] = cm
+				}
+				bt := build(r, s)
+				c.Res.Distribution[fmt.Sprintf("cost-model-length/rule/%d", ln)]++
+				runRule(c, cf, e, bt.raw, bt.utxos, s.cms, false, fmt.Sprintf("rule-long-cost-model/%s/hashmode-%d", e.name, hm))
 			}
 		}
 	}
